@@ -45,7 +45,7 @@ def make_cases(tier, seed, n_random=None):
     srs = SEMIRINGS_QUICK if quick else SEMIRINGS_THOROUGH
     n_random = (110 if quick else 1500) if n_random is None else n_random
     L = 3 if quick else 4
-    doms = domains.grammar_domain(tier, seed, n_random=n_random)
+    doms = [(n, g) for n, g in domains.grammar_domain(tier, seed, n_random=n_random) if g.V]   # composition needs at least one symbol to read
     n_corpus = len(doms) - n_random
     tc = dom_fst.fst_corpus("ab", "xy")
     tnames = list(tc)
